@@ -1,8 +1,8 @@
 """C04 - LRTDP stays an upper bound and ends within the error margin of optimal."""
 import numpy as np
 
-from sim.core import Violation, Inconclusive, RandomProxy, patched_random
-from sim.models import gen_mdp_spec, MDPView, make_mdp, sibling_mdp_spec
+from sim.core import Violation, Inconclusive, InjectedAbort, RandomProxy, patched_random
+from sim.models import gen_mdp_spec, MDPView, make_mdp, sibling_mdp_spec, rotated_probability_spec, update_model_in_place
 from sim.refsolve import optimal_values, evaluate, game_W
 from sim.heur import gen_heuristic, build_heuristic, is_monotone
 from sim.ctx import RunCtx, make_scheduler, gen_sched
@@ -44,7 +44,8 @@ def gen_case(rng, tier, idx):
         spec = gen_mdp_spec(rng, proper=True, discounts=(0.999,) if rng.random() < 0.02 else (0.5, 0.9, 0.95, 1.0, 1.0), uniform_actions=rng.random() < 0.3,
                             rewards=rng.choice((None, None, (-2.0, -1.0, -1.0, 0.0, 1.0, 0.5), (-1.0, -2.0, -1.0, -3.0), (0.0, -1.0), (0.0,))))
         cfg = dict(heur=gen_heuristic(rng), eps=rng.choice((1e-2, 1e-3, 1e-5)), rao=rng.random() < 0.6, seed=rng.choice((0, 1, 9, None)),
-                   reuse=rng.randrange(1000) if rng.random() < 0.2 else None, alias=rng.choice(('fresh', 'fresh', 'cached', 'shared', 'tuple')), cap_exact=rng.random() < 0.25)
+                   reuse=rng.randrange(1000) if rng.random() < 0.2 else None, alias=rng.choice(('fresh', 'fresh', 'cached', 'shared', 'tuple')), cap_exact=rng.random() < 0.25,
+                   model_update=rng.random() < 0.1)
     plain = idx % 4 == 0
     sched = gen_sched(rng, ('P',) if plain else ('P', 'U', 'R', 'R'), budget_choices=(20, 100, 400, 2000), cap=300000)
     return dict(spec=spec, cfg=cfg, sched=sched)
@@ -56,7 +57,7 @@ def execute(case, script=None):
     ctx = RunCtx(PROP, view)
     ctx.W = game_W(view)
     ctx.declare_probes('absorbing_initial_state', 'absorbing_initial_labelled_by_entry', 'monotone_heuristic', 'non_monotone_heuristic',
-                       'nonzero_heuristic_at_absorbing', 'unproductive_trial', 'trial_events', 'timestep_events', 'undiscounted', 'planner_reused', 'trial_cap_exact')
+                       'nonzero_heuristic_at_absorbing', 'unproductive_trial', 'trial_events', 'timestep_events', 'undiscounted', 'planner_reused', 'trial_cap_exact', 'rerun_after_abort', 'model_updated_in_place')
     sched = make_scheduler(case, script, ctx)
     try:
         return _execute(lr, view, case['cfg'], ctx, sched)
@@ -65,7 +66,17 @@ def execute(case, script=None):
 
 
 def _execute(lr, view, cfg, ctx, sched):
-    mdp = make_mdp(view, ctx, alias=cfg.get('alias', 'fresh'))
+    rview = None
+    if cfg.get('model_update'):
+        rview = MDPView(rotated_probability_spec(view.spec))
+        if any(w == float('inf') for w in game_W(rview).values()):
+            rview = None
+    if rview is not None:
+        # fault F9 for models: planned on with rotated probabilities first, then the model's own distribution objects are
+        # updated in place to this workload's probabilities and the real planning run uses the same model object
+        mdp = make_mdp(rview, ctx, alias=cfg.get('alias', 'fresh'), stored_dists=True)
+    else:
+        mdp = make_mdp(view, ctx, alias=cfg.get('alias', 'fresh'))
     sk, ak, sid, aid = view.sk, view.ak, view.sid, view.aid
     g, eps = view.gamma, cfg['eps']
     Vs, Qs = optimal_values(view)
@@ -172,6 +183,19 @@ def _execute(lr, view, cfg, ctx, sched):
                 planner = lr.LRTDP(heuristic=lambda s: htab[sid[s]], seed=cfg['seed'], bellman_error_margin=eps, randomize_action_order=cfg['rao'],
                                    iterations=iterations_cap, event_listener_class=L)
                 sib = sibling_mdp_spec(view.spec, cfg['reuse']) if (allow_reuse and cfg.get('reuse') is not None) else None
+                if sib is not None and cfg['reuse'] % 2 == 1:
+                    # fault F6: a first run on the SAME problem and objects is aborted by an exception thrown from a model call-back
+                    # (the library analogue of a crash); the real run then uses the same planner and model objects
+                    sib = None
+                    ctx.probe('rerun_after_abort')
+                    st['main'] = False
+                    hook = ctx.abort_after(1 + cfg['reuse'] % 60)
+                    try:
+                        planner.plan_on(mdp)
+                    except InjectedAbort:
+                        pass
+                    ctx.disarm(hook)
+                    st['main'] = True
                 if sib is not None:
                     # fault F5: the same planner object is first used on a sibling problem (same keys, one more absorbing state)
                     sched.fire('F5_object_reuse')
@@ -239,6 +263,20 @@ def _execute(lr, view, cfg, ctx, sched):
                       lambda: f"{tag}exact return of the returned policy {vp0!r} is more than eps*N = {eps * n0!r} below the optimum {v0!r}")
         return st
 
+    if rview is not None:
+        import msdm.algorithms.lrtdp as _lr
+        sched.fire('F9_model_updated_in_place')
+        ctx.probe('model_updated_in_place')
+        W0, ctx.W = ctx.W, game_W(rview)
+        with patched_random([_lr], RandomProxy(sched)):
+            try:
+                _lr.LRTDP(heuristic=lambda s: 1e6, seed=cfg['seed'], bellman_error_margin=0.5, randomize_action_order=cfg['rao'], iterations=50).plan_on(mdp)
+            except (Violation, Inconclusive):
+                raise
+            except Exception:
+                pass
+        ctx.W = W0
+        update_model_in_place(mdp, view)
     st1 = one_run(sched, 10 ** 7, '', True)
     # fault F7: the trial cap placed exactly at the number of trials this schedule needs; the planner runs out of trials
     # just as the last initial state is labelled, and everything it reports must still satisfy the property
